@@ -390,6 +390,9 @@ func (c *copier) copy(ctx context.Context, src, srcComponents, target string, ov
 			return nil
 		}
 
+		if targetFi != nil {
+			c.forgetLinkSources(target)
+		}
 		if err := ensureEmptyFileTarget(target); err != nil {
 			return err
 		}
@@ -516,7 +519,19 @@ func (c *copier) removeTargetIfNeeded(target string, srcFi, targetFi os.FileInfo
 		// directories are merged, not replaced
 		return nil
 	}
+	c.forgetLinkSources(target)
 	return os.RemoveAll(target)
+}
+
+// forgetLinkSources drops the recorded hard-link sources at or below a
+// destination path that is about to be removed or replaced: a later name of
+// the same inode must not be linked to whatever takes their place.
+func (c *copier) forgetLinkSources(target string) {
+	for inode, p := range c.inodes {
+		if p == target || strings.HasPrefix(p, target+string(filepath.Separator)) {
+			delete(c.inodes, inode)
+		}
+	}
 }
 
 // Delayed creation of parent directories when a file or dir matches an include
